@@ -22,12 +22,12 @@ func init() {
 		Rule: "pipelines <k requests> Unbind <m requests> for all k,m in 0..3 (0..8 in thorough) x {whole pipeline in one write (same TCP segment), one write per frame, byte-dribbled} x {no unbind route, unbind route registered, unbind route whose handler panics} x " +
 			"{earlier handlers finished, earlier handlers parked on a harness gate (also 63..300 of them at once), an earlier handler that panicked and was recovered} x Unbind message IDs {555, 0, 1, 99, 2^31-1} x {plain, TLS listener, StartTLS-upgraded}; the requests after the Unbind include every operation kind and a second Unbind; the parked handlers are search handlers or (every third case) bind handlers; two in five Unbinds carry controls (ManageDsaIT, a paging control with an empty value, an unknown critical one next to a password-expiry warning that is not a number). Oracle: the set of dispatched message IDs equals the k earlier ones; " +
 			"the unbind handler ran exactly once when registered; the strictly parsed stream up to EOF contains exactly one response per earlier request and nothing carrying the Unbind's or a later request's message ID; " +
-			"with parked handlers EOF is not seen before the gate opens and is seen after. A second scenario stops the server while an Unbind and its followers sit unread in the connection's buffer behind a held StartTLS (read-loop) handler: no answer to the Unbind, nothing behind it dispatched. A third stops the server in the window between reading an Unbind and acting on it (the window held open at gldap's own 'packet read' Debug log line through the user-supplied logger; the beginning of the shutdown observed on a second, idle connection): the unbind handler still runs exactly once. A fourth gives one Mux to two servers (plain+plain, plain+TLS) and alternates Unbind-terminated sessions between them: one handler run per session. A fifth attaches the empty mux (Server.Router) before the routes are registered, Run last. Every fourth run registers the unbind route twice (only the first registration is the route), every fifth run's Unbind carries a control of up to 40KB. distinct_nontrivial = distinct (k, m, write mode, route, parked, transport) combinations",
+			"with parked handlers EOF is not seen before the gate opens and is seen after. A second scenario stops the server while an Unbind and its followers sit unread in the connection's buffer behind a held StartTLS (read-loop) handler: no answer to the Unbind, nothing behind it dispatched. A third stops the server in the window between reading an Unbind and acting on it (the window held open at gldap's own 'packet read' Debug log line through the user-supplied logger; the beginning of the shutdown observed on a second, idle connection): the unbind handler still runs exactly once. A fourth gives one Mux to two servers (plain+plain, plain+TLS) and alternates Unbind-terminated sessions between them: one handler run per session. A fifth attaches the empty mux (Server.Router) before the routes are registered, Run last. Every fourth run registers the unbind route twice (only the first registration is the route), every fifth run's Unbind carries a control of up to 40KB, every third run registers the default route after the unbind route; sessions whose Unbind is request number 1025, 1001, 2049 (thorough: also 513, 4097, 10001) of its connection. distinct_nontrivial = distinct (k, m, write mode, route, parked, transport) combinations",
 		Assume: []string{"'dispatched' is observed by recording handlers on every route kind including the default route"},
 		Phases: func(tier string, seed int64) []Phase {
 			return []Phase{{Name: "pipelines", Run: c10Run}}
 		},
-		MinObserved: []string{"pipelines_checked", "requests_after_unbind_sent", "eof_withheld_until_release_observed", "pipelines_after_a_write_fault", "pipelines_with_an_earlier_handler_panic", "unbinds_with_unusual_message_ids", "stops_with_an_unbind_pipeline_in_the_read_buffer", "stops_between_reading_an_unbind_and_acting_on_it", "unbinds_on_servers_that_share_a_mux", "second_unbinds_sent_behind_the_first", "pipelines_with_bind_handlers_parked_when_the_unbind_arrives", "unbinds_carrying_controls", "pipelines_on_a_mux_whose_unbind_route_was_registered_twice", "pipelines_whose_earlier_handlers_stay_parked_long_after_the_unbind", "unbinds_on_a_server_whose_routes_were_registered_after_the_mux_was_attached", "pipelines_inside_a_starttls_upgraded_session"},
+		MinObserved: []string{"pipelines_checked", "unbinds_sent_after_more_than_a_thousand_requests", "pipelines_on_a_mux_whose_default_route_was_registered_after_the_unbind_route", "requests_after_unbind_sent", "eof_withheld_until_release_observed", "pipelines_after_a_write_fault", "pipelines_with_an_earlier_handler_panic", "unbinds_with_unusual_message_ids", "stops_with_an_unbind_pipeline_in_the_read_buffer", "stops_between_reading_an_unbind_and_acting_on_it", "unbinds_on_servers_that_share_a_mux", "second_unbinds_sent_behind_the_first", "pipelines_with_bind_handlers_parked_when_the_unbind_arrives", "unbinds_carrying_controls", "pipelines_on_a_mux_whose_unbind_route_was_registered_twice", "pipelines_whose_earlier_handlers_stay_parked_long_after_the_unbind", "unbinds_on_a_server_whose_routes_were_registered_after_the_mux_was_attached", "pipelines_inside_a_starttls_upgraded_session"},
 	})
 }
 
@@ -143,6 +143,85 @@ func c10Run(c *Ctx) {
 	}
 	for round := 0; round < c.N(4, 40); round++ {
 		c10RouterFirst(c, round)
+	}
+	for round := 0; round < c.N(3, 12); round++ {
+		c10LongSession(c, round)
+	}
+}
+
+// c10LongSession: the Unbind of a session that has been busy - it is request number 1025 (1001, 2049 ...) of its
+// connection. The unbind handler runs once, nothing is written in answer to it, nothing behind it is served.
+func c10LongSession(c *Ctx, round int) {
+	var runs, after atomic.Int64
+	srv, err := startSrv(SrvCfg{}, func(m *gldap.Mux) {
+		m.Search(func(w *gldap.ResponseWriter, req *gldap.Request) {
+			if sm, err := req.GetSearchMessage(); err == nil && sm.BaseDN == "after-the-unbind" {
+				after.Add(1)
+			}
+			w.Write(req.NewSearchDoneResponse(gldap.WithResponseCode(0)))
+		})
+		m.Unbind(func(w *gldap.ResponseWriter, req *gldap.Request) { runs.Add(1) })
+	})
+	if err != nil {
+		c.Inconclusive("server start: " + err.Error())
+		return
+	}
+	defer srv.StopWithin(patience)
+	cl, err := dialRaw(srv.Addr, nil)
+	if err != nil {
+		c.Inconclusive("dial: " + err.Error())
+		return
+	}
+	defer cl.Close()
+	search := func(id int64, base string) []byte {
+		return sber.Message(id, sber.Search{Base: []byte(base), Scope: 2, Filter: sber.PresentFilter("cn"), Attrs: [][]byte{}}.Node(), nil).Encode()
+	}
+	n := []int{1023, 999, 2047, 511, 4095, 9999}[round%6] // the Unbind is request n+2: 1025, 1001, 2049, 513, 4097, 10001
+	id := int64(0)
+	for sent := 0; sent < n; {
+		var batch []byte
+		b := 0
+		for ; b < 50 && sent < n; b++ {
+			id++
+			sent++
+			batch = append(batch, search(id, "dc=x")...)
+		}
+		cl.Send(batch)
+		for ; b > 0; b-- {
+			if _, err := cl.ReadMsg(patience); err != nil {
+				c.Inconclusive(fmt.Sprintf("long session: request %d unanswered: %v", sent, err))
+				return
+			}
+		}
+	}
+	before := srv.closeCnt.Load()
+	last := append(search(id+1, "dc=x"), sber.Message(id+2, sber.UnbindRequest(), nil).Encode()...)
+	cl.Send(append(last, search(id+3, "after-the-unbind")...))
+	det := map[string]any{"requests_before_the_unbind": n + 1}
+	var extra []string
+	for {
+		m, err := cl.ReadMsg(patience)
+		if err != nil {
+			if isTimeout(err) {
+				c.Violate("connection not closed after Unbind", fmt.Sprintf("an Unbind sent as request %d of its connection: the connection is still open", n+2), det)
+				return
+			}
+			break
+		}
+		if m.ID != id+1 {
+			extra = append(extra, fmt.Sprintf("id=%d tag=%d", m.ID, m.Op.Tag))
+		}
+	}
+	srv.WaitCloses(before+1, patience)
+	c.Count("unbinds_sent_after_more_than_a_thousand_requests", 1)
+	if got := runs.Load(); got != 1 {
+		c.Violate("the unbind handler did not run exactly once", fmt.Sprintf("an Unbind sent as request %d of its connection: the unbind handler ran %d times", n+2, got), det)
+	}
+	if len(extra) > 0 {
+		c.Violate("something was written in answer to an Unbind", fmt.Sprintf("an Unbind sent as request %d of its connection: besides the answer to the request before it the client received %v", n+2, extra), det)
+	}
+	if after.Load() > 0 {
+		c.Violate("a request that followed the Unbind was dispatched to a handler", fmt.Sprintf("an Unbind sent as request %d of its connection", n+2), det)
 	}
 }
 
@@ -516,7 +595,10 @@ func c10One(c *Ctx, pki *PKI, srvs map[string]*Srv, cs c10Case, r *Rand, idx int
 		}
 		rec("ext-starttls")(w, req)
 	}, gldap.ExtendedOperationStartTLS)
-	m.DefaultRoute(rec("default"))
+	defaultLast := idx%3 == 1
+	if !defaultLast {
+		m.DefaultRoute(rec("default"))
+	}
 	if cs.Route && idx%4 == 3 {
 		// the unbind route is registered twice: the first registration is replaced, its handler never runs
 		m.Unbind(func(w *gldap.ResponseWriter, req *gldap.Request) {
@@ -535,6 +617,13 @@ func c10One(c *Ctx, pki *PKI, srvs map[string]*Srv, cs c10Case, r *Rand, idx int
 				panic("injected panic in the unbind handler (C10)")
 			}
 		})
+	}
+	if defaultLast {
+		// the default route is registered after the unbind route (the order of registrations is the application's business)
+		m.DefaultRoute(rec("default"))
+		if cs.Route {
+			c.Count("pipelines_on_a_mux_whose_default_route_was_registered_after_the_unbind_route", 1)
+		}
 	}
 	if err := srv.S.Router(m); err != nil {
 		c.Inconclusive("Router: " + err.Error())
@@ -719,7 +808,7 @@ func c10One(c *Ctx, pki *PKI, srvs map[string]*Srv, cs c10Case, r *Rand, idx int
 	}
 	// read everything until EOF
 	got := map[int64]int{}
-	sawEOF := false
+	sawEOF, endedInReset := false, false
 	for {
 		m, err := cl.ReadMsg(10 * time.Second)
 		if err != nil {
@@ -729,6 +818,10 @@ func c10One(c *Ctx, pki *PKI, srvs map[string]*Srv, cs c10Case, r *Rand, idx int
 				c.Violate("malformed frame on an unbind pipeline", err.Error(), det)
 			} else {
 				sawEOF = true
+				// a connection closed while requests the server never read are still queued for it (the client sent
+				// them behind the Unbind) is reset by the kernel, and a reset may discard what was on its way to the
+				// client: only a stream that ended with a clean EOF is known to be complete
+				endedInReset = strings.Contains(err.Error(), "reset")
 			}
 			break
 		}
@@ -796,8 +889,11 @@ func c10One(c *Ctx, pki *PKI, srvs map[string]*Srv, cs c10Case, r *Rand, idx int
 			c.Violate("an earlier request was answered more than once", fmt.Sprintf("%v: id %d x%d", cs, id, n), det)
 		}
 	}
+	if endedInReset {
+		c.Count("pipelines_whose_connection_ended_in_a_reset", 1)
+	}
 	for id := range before {
-		if got[id] == 0 && !cs.WriteFault && !(cs.EarlierPanic && id == 100) {
+		if got[id] == 0 && !cs.WriteFault && !(cs.EarlierPanic && id == 100) && !endedInReset {
 			c.Violate("an earlier request's response was lost when the connection ended", fmt.Sprintf("%v: id %d", cs, id), det)
 		}
 	}
